@@ -637,8 +637,12 @@ bool RegularExpression::matches(const XMLCh* const expression, const XMLSize_t s
             bool ignoreCase = isSet(fOptions, IGNORE_CASE);
             RangeToken* range = fFirstChar;
 
-            if (ignoreCase)
-                range = fFirstChar->getCaseInsensitiveToken(fTokenFactory);
+            if (ignoreCase) {
+                // there is no case-insensitive variant of a token without ranges
+                RangeToken* ciRange = fFirstChar->getCaseInsensitiveToken(fTokenFactory);
+                if (ciRange != 0)
+                    range = ciRange;
+            }
 
             for (matchStart=context.fStart; matchStart<=limit; matchStart++) {
 
